@@ -322,7 +322,7 @@ pub fn run(tier: &str) -> Report {
     let thorough = tier == "thorough";
     let table = Table::new(&TableCfg::FULL);
     let mapfile = table.mapfile_text(REGS);
-    let (bound, budget, depth) = if thorough { (7, 8, 3) } else { (4, 6, 2) };
+    let (bound, budget, depth) = if thorough { (7, 8, 3) } else { (5, 6, 2) };
     let mut cases: Vec<(Vec<Node>, Vec<u32>, String)> = vec![];
     let mut seen = BTreeSet::new();
     let stats = explore_dfs(bound, if thorough { 3_000_000 } else { 400_000 }, &|ch| {
